@@ -241,7 +241,9 @@ def plans_for(calls, rng, limit=None, crash=True):
             plans.append({"k": k, "mode": "torn" if kind == "write" else "crash", "err": ""})
     if limit and len(plans) > limit:
         # keep the exit-phase calls (the last ones) and a seeded sample of the rest
+        # ... and the start-up phase (accessor selection probes the info file there)
+        first = plans[:4]
         tail = plans[-limit // 3:]
-        head = rng.sample(plans[:-limit // 3], limit - len(tail))
-        plans = sorted(head, key=lambda q: (q["k"], q["mode"])) + tail
+        head = rng.sample(plans[4:-limit // 3], limit - len(tail) - len(first))
+        plans = first + sorted(head, key=lambda q: (q["k"], q["mode"])) + tail
     return plans
